@@ -18,12 +18,15 @@ from .c01 import replay_program
 PROP = 'C04'
 
 
-def history_script(prog, mci, clients, history, final_at=0):
+def history_script(prog, mci, clients, history, final_at=0, bind_at=0):
     """`final_at`: how many operations of the history run before FinalConstruct() (a claim
-    during assembly is a claim)."""
-    lines = scripts.preamble(prog, clients=clients)
+    during assembly is a claim).  `bind_at` (<= final_at, never after the first out-event):
+    how many run before the clients connect their out-event handlers."""
+    lines = scripts.preamble(prog, clients=clients, bind_clients=False)
     port = mci['port']
     for pos, op in enumerate(list(history) + [None]):
+        if pos == bind_at:
+            lines += [f'bindall {c}' for c in clients]
         if pos == min(final_at, len(history)):
             lines.append('final')
         if op is None:
@@ -34,6 +37,10 @@ def history_script(prog, mci, clients, history, final_at=0):
             lines += [f'reply comp/{port}/{mci["claim"]} {idx}', f'call {port}/{mci["claim"]} {client}']
         elif kind == 'release':
             lines.append(f'call {port}/{mci["release"]} {op[1]}')
+        elif kind == 'rebind':
+            # the client connects its handlers once more (a new object takes over its port)
+            lines.append(f'bindall {op[1]}')
+            continue
         elif kind == 'other':
             _k, client, ev, idx = op
             if idx is not None:
@@ -61,9 +68,17 @@ def judge_history(log, mci, history):
             wins.append(cur)
         elif cur is not None:
             cur['records'].append(rec)
-    if len(wins) != len(history):
-        return [('history-not-fully-executed', {'ops': len(history), 'executed': len(wins)})], counts
-    for idx, (op, win) in enumerate(zip(history, wins)):
+    calls = [op for op in history if op[0] != 'rebind']
+    if len(wins) != len(calls):
+        return [('history-not-fully-executed', {'ops': len(calls), 'executed': len(wins)})], counts
+    generation = {}       # client -> how often it has connected its handlers
+    wins_iter = iter(wins)
+    for idx, op in enumerate(history):
+        if op[0] == 'rebind':
+            generation[op[1]] = generation.get(op[1], 1) + 1
+            counts['handlers_reconnected'] = counts.get('handlers_reconnected', 0) + 1
+            continue
+        win = next(wins_iter)
         call = win['call']['d']
         arrivals = [r for r in win['records'] if r['kind'] == 'arrive']
         dones = [r for r in win['records'] if r['kind'] == 'arrive_done']
@@ -76,6 +91,12 @@ def judge_history(log, mci, history):
             wrong_event = [a['d']['event'] for a in arrivals if a['d']['event'] != op[1]]
             if wrong_event:
                 viols.append(('out-event-delivered-as-other-event', dict(where, got=wrong_event)))
+            stale = [(a['d'].get('client'), a['d'].get('gen')) for a in arrivals
+                     if a['d']['side'] == 'user' and a['d'].get('gen') is not None
+                     and a['d'].get('gen') != generation.get(a['d'].get('client'), 1)]
+            if stale:
+                viols.append(('out-event-delivered-to-replaced-handler',
+                              dict(where, stale=stale, current=dict(generation))))
             if len(granted) > 1:
                 # the component granted a claim while another client held one: 'the one' of
                 # the statement is not unique - judged leniently while several hold it
@@ -162,6 +183,8 @@ def rand_history(rng, mci, clients, others, outs, length):
         elif r < 0.65 and others:
             ev, nrep = rng.choice(others)
             history.append(('other', client, ev, rng.randrange(nrep) if nrep else None))
+        elif r < 0.72:
+            history.append(('rebind', client))
         elif outs:
             history.append(('out', rng.choice(outs)))
     if outs:
@@ -222,7 +245,12 @@ def eval_program(arg) -> dict:
         if final_at:
             cnt['histories_starting_before_final_construction'] = \
                 cnt.get('histories_starting_before_final_construction', 0) + 1
-        script = history_script(prog, mci, clients, history, final_at)
+        first_out = next((i for i, o in enumerate(history) if o[0] == 'out'), len(history))
+        bind_at = 0 if (exhaustive or idx % 2) else rng.randint(0, min(final_at, first_out))
+        if bind_at:
+            cnt['histories_with_handlers_connected_late'] = \
+                cnt.get('histories_with_handlers_connected_late', 0) + 1
+        script = history_script(prog, mci, clients, history, final_at, bind_at)
         saved = dict(cnt)
         log = progrun.run_and_collect(prog, script, flavor, 'hist', out, case)
         if log is None:
@@ -261,6 +289,7 @@ def main(tier: str) -> int:
     run = common.Run(PROP, tier)
     n = 6 if tier == 'quick' else 40
     run.require('histories', 'out_events_judged', 'in_events_judged', 'deliveries_to_holder',
+                'handlers_reconnected', 'histories_with_handlers_connected_late',
                 'deliveries_to_nobody', 'decoy_events_present', 'histories_exhaustive_part')
     scratch = run.scratch()
     progrun.drive(run, eval_program, [(run.seed, i, scratch, tier) for i in range(n)])
